@@ -29,7 +29,8 @@ RULE = ("bounded-exhaustive DFS with (tracker state, shadow state) hashing over 
         "id, K: sends next+1 first (out of order), H: sends the oldest skipped id, R: resends its oldest id, L: resends "
         "its newest id, I: proxy injects} to depth D (quick 8, thorough 12) for window sizes 1,2,3 and starting ids 0/1; "
         "random walks of 300 steps with windows 1..50 and 10000. After EVERY step all laws are evaluated for every "
-        "original id 0..max+3. distinct_nontrivial = distinct hashed (implementation, shadow) states with >= 1 injection")
+        "original id 0..max+3. distinct_nontrivial = distinct hashed (implementation, shadow) states with >= 1 injection"
+        ". Round-5 addition: the same laws observed on the wire of a real ProxiedCircuit (quick 40, thorough 600 histories of 20-150 sends): endpoint packets, endpoint retransmissions, fresh injections, packets taken before forwarding, and take() copies of messages that already went out (forwarded or injected) - every proxy-originated datagram must carry a fresh injected id above everything seen, every forwarded one the expected id")
 ASSUMPTIONS = [
     "laws are only demanded for ids whose wire id is newer than the newest injection that aged out of the tracker's "
     "window (the property's own bounded-memory caveat); below it only 'no exception other than ValueError' is asserted",
@@ -38,7 +39,7 @@ ASSUMPTIONS = [
 ]
 MUST_REACH = {"states": 500, "evictions_observed": 10, "reverse_after_later_injection": 10, "out_of_order_sends": 10,
               "resends_checked": 10, "law_evaluations": 10000, "circuit_forwarded": 100, "circuit_proxy_packets": 50,
-              "circuit_replays_of_sent_messages": 10, "circuit_endpoint_resends": 5}
+              "circuit_replays_of_sent_messages": 10, "circuit_endpoint_resends": 5, "circuit_socket_failures": 20}
 
 ALPHABET = "NKHRLI"
 
@@ -264,8 +265,12 @@ def random_walk(ctx, rng, maxlen, steps):
 class _RecTransport:
     def __init__(self):
         self.ids = []
+        self.fail_next = False
 
     def send_packet(self, packet):
+        if self.fail_next:
+            self.fail_next = False
+            raise OSError("scripted socket failure")
         self.ids.append(_eager.deserialize(bytes(packet.data)).packet_id)
 
     def close(self):
@@ -298,14 +303,47 @@ def circuit_history(ctx, rng, steps):
         return got[0]
 
     for _ in range(steps):
-        a = rng.choices(["F", "R", "J", "T", "TJ", "K"], weights=[6, 1, 3, 2, 1, 1])[0]
+        a = rng.choices(["F", "R", "J", "T", "TJ", "K", "E"], weights=[6, 1, 3, 2, 1, 1, 1])[0]
         if a in ("T", "TJ", "R") and not went_out:
             continue
         path.append(a)
         if len(path) > 60:
             del path[0]
         try:
-            if a in ("F", "R"):
+            if a == "E":
+                # the socket fails under a forwarded packet; the caller tries the same message object again (refused or not),
+                # then the endpoint retransmits: whatever goes out for this packet carries the one id it is entitled to
+                o = next_orig
+                next_orig += 1
+                want = expected_wire(injected, o)
+                msg = mk(o)
+                tr.fail_next = True
+                try:
+                    circ.send(msg)
+                except OSError:
+                    pass
+                tr.fail_next = False
+                tr.ids[:] = []
+                got = []
+                try:
+                    circ.send(msg)
+                    got += tr.ids
+                    ctx.count("circuit_retries_after_socket_failure_accepted")
+                except RuntimeError:
+                    ctx.count("circuit_retries_after_socket_failure_refused")
+                tr.ids[:] = []
+                circ.send(mk(o))
+                got += tr.ids
+                tr.ids[:] = []
+                ctx.count("circuit_socket_failures")
+                if not got or any(w != want for w in got) or want in wires:
+                    ctx.violation("circuit:id-after-socket-failure", "after a socket failure under a forwarded packet, what went out "
+                                  "for that packet did not carry its one wire id", {"path": list(path), "orig": o, "wire_ids": got,
+                                                                                    "expected": want, "collides_with": wires.get(want)})
+                    return
+                first[o] = want
+                wires[want] = ("fwd", o)
+            elif a in ("F", "R"):
                 if a == "F":
                     o = next_orig
                     next_orig += 1
